@@ -51,6 +51,10 @@ def main() -> None:
         return
     if req.get("lift") and out["kernel"] == "reproduced":
         try:
+            # the API replay runs the unmodified library: drop the harness's scoped helpers
+            # (e.g. the `int` shim used with regex group stubs) from the rule module first
+            import ctparse.time.rules as _TR
+            _TR.__dict__.pop("int", None)
             lift = getattr(mod, req["lift"])
             la = lift(*args, **kwargs)
             # lift returns {"reproduced": bool, ...details}
